@@ -7,6 +7,7 @@ the watchdog fires /proc is sampled to tell a deadlock (violation) from a slow
 run (inconclusive).
 """
 import os
+import re
 import signal
 import subprocess
 import time
@@ -153,6 +154,78 @@ def one_case(job):
     return res
 
 
+TSAN_BLOCK = re.compile(rb"WARNING: ThreadSanitizer: ([^\n(]+).*?SUMMARY: ThreadSanitizer: [^\n]* in ([^\n]+)", re.S)
+
+
+def tsan_case(job):
+    s4t, d, srcs, args, scheds, opts, sigint_at = job
+    okorder = [a[1] for a in args if a[0] == "ok"]
+    exp = cases.expected_stdout(cases.merge_model(srcs, okorder))
+    if any(a[0] == "raw" for a in args):
+        exp = None
+    argv = [s4t, "--color", "never", "-t=+00:00"] + opts + [a[1].arg if a[0] == "ok" else a[1] for a in args]
+    res = []
+    for i, extra in enumerate(scheds):
+        env = core.base_env(tmpdir=d, extra=dict(extra, TSAN_OPTIONS="halt_on_error=0:exitcode=0:second_deadlock_stack=1"))
+        t0 = time.monotonic()
+        p = subprocess.Popen(argv, env=env, stdin=subprocess.DEVNULL, stdout=subprocess.PIPE, stderr=subprocess.PIPE, start_new_session=True)
+        sent = False
+        try:
+            if sigint_at is not None and i % 2 == 1:
+                time.sleep(sigint_at)
+                if p.poll() is None:
+                    os.kill(p.pid, signal.SIGINT)
+                    sent = True
+            out, err = p.communicate(timeout=300)
+            to = False
+        except subprocess.TimeoutExpired:
+            os.killpg(p.pid, signal.SIGKILL)
+            out, err = p.communicate()
+            to = True
+        res.append((extra, core.Result(p.returncode, out, err, to, time.monotonic() - t0, argv, env), sent, exp))
+    return res
+
+
+def tsan_part(ctx):
+    """The same kind of cases on a ThreadSanitizer build (std rebuilt with the sanitizer, so the futex locks, atomics and
+    channels are understood): a data race between a worker, the printing thread and the Ctrl-C thread is scheduling
+    dependence by definition. Every report block on stderr is a violation; stdout is compared with the model as well."""
+    s4t = core.build_tsan()
+    rng = ctx.rng
+    jobs = []
+    for cid in range(ctx.pick(24, 400)):
+        d, srcs, args = build_case(ctx, rng, 100000 + cid)
+        opts = rng.choice([[], [], ["--summary"], ["-n", "-u"], ["-a", "2024-01-01T00:00:00"]])
+        sig = rng.choice([None, None, 0.0, 0.02, 0.1, 0.3])
+        jobs.append((s4t, d, srcs, args, schedules(rng, len(args), 3), opts, sig))
+    nrep = 0
+    for job, results in zip(jobs, core.pmap(tsan_case, jobs)):
+        d = job[1]
+        for extra, r, sent, exp in results:
+            if r.timed_out:
+                ctx.inconc("watchdog (tsan build)")
+                continue
+            ctx.evaluated(1, None)
+            ctx.count("tsan runs")
+            if sent:
+                ctx.count("tsan runs with SIGINT delivered (Ctrl-C thread active)")
+            if "--summary" in r.argv:
+                ctx.count("tsan runs with --summary")
+            blocks = TSAN_BLOCK.findall(r.err)
+            for kind, where in blocks[:3]:
+                nrep += 1
+                fn = re.sub(rb"::h[0-9a-f]{16}|0x[0-9a-f]+|\(.*?\)", b"", where).decode("utf-8", "replace").strip()[:80]
+                ctx.violation("C06|tsan|%s|%s" % (kind.decode().strip().replace(" ", "-"), fn), "ThreadSanitizer: %s in %s" % (kind.decode().strip(), fn),
+                              src_dir=d, files={"tsan.stderr": r.err[-20000:]}, info={"argv": r.argv, "env": r.env, "sigint": sent})
+            if b"ThreadSanitizer" in r.err and not blocks:
+                ctx.violation("C06|tsan|unparsed-report", "ThreadSanitizer wrote something that is not a report block: %r" % r.err[-300:], src_dir=d,
+                              files={"tsan.stderr": r.err[-20000:]}, info={"argv": r.argv, "env": r.env})
+            if not sent and exp is not None and "-a" not in r.argv and "-n" not in r.argv and r.rc in (0, 1) and r.out != exp:
+                ctx.violation("C06|stdout-differs-from-model|tsan-build", "stdout of the ThreadSanitizer build differs from the reference merge under %s" % (extra,),
+                              src_dir=d, files={"expected.stdout": exp, "observed.stdout": r.out}, info={"argv": r.argv, "env": r.env})
+    ctx.extra["tsan_report_blocks"] = nrep
+
+
 def run(ctx):
     s4 = core.build_s4()
     rng = ctx.rng
@@ -216,6 +289,7 @@ def run(ctx):
                             "trace_head": ["\t".join(map(str, e[2:])) for e in evs[:12]]})
         if len(outs) > 1:
             ctx.violation("C06|stdout-depends-on-schedule", "%d distinct outputs over the schedules of one case" % len(outs), src_dir=d)
+    tsan_part(ctx)
     ctx.extra["trace_events_checked"] = tot["events"]
     ctx.extra["prints_checked"] = tot["prints"]
     ctx.extra["sends_that_blocked_on_full_channel"] = tot["blocked_sends"]
